@@ -107,6 +107,17 @@ Section Thms.
   Qed.
 End Thms.
 
+Theorem merge_total_keys sel : sel_ok sel -> forall rd1 rd2, merge_domb rd1 rd2 = true ->
+  forall idx merged, merge_reversed_dicts_identities sel rd1 rd2 = Some (idx, merged) ->
+  (forall s, In s (rd1 ++ rd2) ->
+     exists mi, sget idx s = Some mi /\ 0 <= mi_final mi < Z.of_nat (length merged)) /\
+  (forall s mi, sget idx s = Some mi -> In s (rd1 ++ rd2)).
+Proof.
+  intros Hs rd1 rd2 D idx merged H. split.
+  - exact (merge_total sel Hs rd1 rd2 D idx merged H).
+  - exact (merge_keys sel Hs rd1 rd2 D idx merged H).
+Qed.
+
 (* the function always returns (the fuel of the model is never exhausted), inside or outside the domain *)
 Theorem merge_returns sel rd1 rd2 : sel_ok sel ->
   exists idx merged, merge_reversed_dicts_identities sel rd1 rd2 = Some (idx, merged).
